@@ -1017,3 +1017,58 @@ func c11r10(rc *core.RC) {
 		rc.Unknown("json/option-list-parameters", token.NoPos, "found %d parameters that are lists of option functions, fewer than the 10 confirmed by hand", n)
 	}
 }
+
+// ---- C11.R11 the process-wide decoder cache is consulted for whole values only ----
+
+// A decoder carries the position it was compiled for: the names of the struct and the member it decodes go into the
+// errors it returns (UnmarshalTypeError.Struct / .Field). CompileToGetDecoder caches the decoder of a type as a
+// whole value, compiled with empty names. If the compilation of a member took that cached decoder, the error a call
+// returns for the member would depend on whether the member's type had been decoded on its own before. Obligation:
+// the cache (the slice cachedDecoder and the map behind loadDecoderMap) is read only in CompileToGetDecoder,
+// compileToGetDecoderSlowPath, storeDecoder and init; no function that compile() can reach reads it.
+func c11r11(rc *core.RC) {
+	p := rc.P
+	pk := p.Pkg("decoder")
+	if pk == nil {
+		return
+	}
+	allowed := map[string]bool{"CompileToGetDecoder": true, "compileToGetDecoderSlowPath": true, "storeDecoder": true, "loadDecoderMap": true, "init": true, "initDecoder": true}
+	cache := pk.Types.Scope().Lookup("cachedDecoder")
+	n := 0
+	for _, fd := range p.Funcs("decoder") {
+		if fd.Body == nil {
+			continue
+		}
+		info := p.Info(fd)
+		k := 0
+		ast.Inspect(fd.Body, func(m ast.Node) bool {
+			what := ""
+			switch x := m.(type) {
+			case *ast.Ident:
+				if cache != nil && info.Uses[x] == cache {
+					what = "cachedDecoder"
+				}
+			case *ast.CallExpr:
+				if core.CalleeName(info, x) == "decoder.loadDecoderMap" {
+					what = "loadDecoderMap()"
+				}
+			}
+			if what == "" {
+				return true
+			}
+			n++
+			k++
+			rc.Touch(p.FuncName(fd))
+			key := fmt.Sprintf("%s/%s#%d whole-values-only", p.FuncName(fd), what, k)
+			if allowed[fd.Name.Name] && fd.Recv == nil {
+				rc.OK(key, m.Pos(), "read where the decoder of a whole value is looked up or published")
+			} else {
+				rc.Bad(key, m.Pos(), "%s reads the process-wide decoder cache (%s): a decoder found there was compiled for a whole value, with empty struct and member names; used for a member it makes the error of a call depend on which types were decoded on their own before", p.FuncName(fd), what)
+			}
+			return true
+		})
+	}
+	if n < 4 {
+		rc.Unknown("decoder/cache-reads", token.NoPos, "found %d accesses of the decoder cache, fewer than the 4 confirmed by hand", n)
+	}
+}
